@@ -403,6 +403,7 @@ fn deserialize_iterator<'a, 'b, T: BinaryDeserializer + 'a>(
             context,
             element: PhantomData,
         },
+        Ok(length) if length < 0 => DeserializerIterator::InvalidLength(length),
         Ok(length) => DeserializerIterator::KnownSize {
             context,
             remaining: length as usize,
@@ -422,6 +423,7 @@ enum DeserializerIterator<'a, 'b, T: BinaryDeserializer + 'a> {
         element: PhantomData<T>,
     },
     InputEndedUnexpectedly,
+    InvalidLength(i32),
 }
 
 impl<'a, 'b, T: BinaryDeserializer + 'a> Iterator for DeserializerIterator<'a, 'b, T> {
@@ -434,6 +436,9 @@ impl<'a, 'b, T: BinaryDeserializer + 'a> Iterator for DeserializerIterator<'a, '
             DeserializerIterator::InputEndedUnexpectedly => {
                 Some(Err(Error::InputEndedUnexpectedly))
             }
+            DeserializerIterator::InvalidLength(length) => Some(Err(
+                Error::DeserializationFailure(format!("Invalid sequence length: {length}")),
+            )),
             DeserializerIterator::KnownSize {
                 ref mut context,
                 remaining,
